@@ -21,7 +21,7 @@ import (
 	"verif/harness/internal/tv"
 )
 
-var relayTraceSpec = tv.Spec{Module: "RelayTrace", Config: "RelayTrace.cfg"}
+var relayTraceSpec = tv.Spec{Module: "RelayTrace", Config: "RelayTrace.cfg", Timeout: 30 * time.Minute}
 
 func emsg(k string) map[string]any {
 	return map[string]any{"k": k, "sub": "", "id": "", "acc": false, "dup": false, "fs": []abs.Filter{}, "ev": dummyEv}
@@ -344,6 +344,33 @@ func E2E(run *core.Run) {
 		}
 		if len(traces) > 0 {
 			run.Sample(map[string]any{"name": traces[0].Name, "first_lines": traces[0].Lines[:min(8, len(traces[0].Lines))]})
+			// canary: a delivery repeated right behind itself must be rejected
+			done := false
+			for _, tr := range traces {
+				var lines []any
+				for _, l := range tr.Lines {
+					lines = append(lines, l)
+					m := l.(map[string]any)
+					if !done && m["op"] == "ev" && m["t"] == "got" && m["m"].(map[string]any)["k"] == "SEVENT" {
+						lines = append(lines, l, l, l)
+						done = true
+					}
+				}
+				if done {
+					rej, err := tv.Rejects(relayTraceSpec, nil, tv.Trace{Name: "canary", Lines: lines})
+					if err != nil {
+						run.Problem("canary failed to run: %v", err)
+					} else if !rej {
+						run.Problem("canary (a delivery repeated three more times) accepted by RelayTrace")
+					} else {
+						run.Add("canaries_rejected", 1)
+					}
+					break
+				}
+			}
+			if !done {
+				run.Problem("no delivery in any trace: the scenarios are vacuous")
+			}
 		}
 	}
 	run.Set("rule", "end-to-end, beyond the listed properties: 2-4 WebSocket clients against Relay(Prometheus(Merge(Cache(100), Router(100), SQLite))) as cmd/mocrelay composes it; really signed regular events, REQ over 6 filter lists on 2 subscription ids (re-issued only after EOSE), CLOSE, re-submission of acknowledged events; snd / got observations in one total order; TLC validates every prefix against RelayObs!StepOK and the drained end against QuiesceOK. distinct_nontrivial = distinct scenarios")
